@@ -3,7 +3,8 @@
    tied to the implementation by the correspondence check (Model/ChkC04.v). *)
 From Coq Require Import List ZArith QArith Qcanon Bool Arith.
 From Dimod Require Import Base.Util Model.Poly Model.View Model.Hist Model.ChkC04
-  Proofs.PolyFacts Proofs.ViewFacts Proofs.HistFacts Proofs.HistWf.
+  Proofs.PolyFacts Proofs.ViewFacts Proofs.HistFacts Proofs.HistWf Proofs.HistWf2 Proofs.HistAtomic.
+From Dimod Require Model.Adj Proofs.AdjFacts.
 Import ListNotations.
 Open Scope Qc_scope.
 
@@ -119,11 +120,27 @@ Theorem C04_view_add_linear_energy :
 Proof. exact view_add_linear_energy. Qed.
 Print Assumptions C04_view_add_linear_energy.
 
-(* ---------- a raising call changes nothing (calls decided before the first write, on the base object) ---------- *)
-Theorem C04_failed_op_is_noop_partial :
+(* ---------- a raising call changes nothing ---------- *)
+(* `atomic o`: every call except the documented loops (add_linear_from, add_quadratic_from,
+   remove_variables_from, remove_interactions_from, add_variables_from), which stop at the
+   first error and keep the effect so far.  For a well-formed BQM: every atomic call, on the
+   base object or through any .spin/.binary handle (an update operand must be a well-formed BQM). *)
+Theorem C04_failed_op_is_noop :
+  forall s h o e, B s -> wf s -> atomic o = true -> op_ok_bqm o ->
+    snd (step s (h, o)) = Raised e -> fst (step s (h, o)) = s.
+Proof. exact failed_op_is_noop_bqm. Qed.
+Print Assumptions C04_failed_op_is_noop.
+
+(* any state (BQM or QM, no well-formedness needed), base object, calls decided before the first write *)
+Theorem C04_failed_op_is_noop_direct :
   forall s o e, simple_op o = true -> snd (step s (Direct, o)) = Raised e -> fst (step s (Direct, o)) = s.
 Proof. exact failed_op_is_noop_direct. Qed.
-Print Assumptions C04_failed_op_is_noop_partial.
+Print Assumptions C04_failed_op_is_noop_direct.
+
+Theorem C04_qm_update_is_noop_on_conflict :
+  forall o s e, snd (m_update_qm o s) = Raised e -> fst (m_update_qm o s) = s.
+Proof. exact noop_m_update_qm. Qed.
+Print Assumptions C04_qm_update_is_noop_on_conflict.
 
 Theorem C04_conflicting_relabel_is_noop :
   forall s h m, relabel_ok m s = false -> step s (h, ORelabel m) = (s, Raised BValue).
@@ -159,26 +176,75 @@ Proof. exact order_relabel. Qed.
 Print Assumptions C04_order_replace_on_relabel.
 
 (* ---------- well-formedness is an invariant of histories ---------- *)
-(* partial: covers every call expressed through the primitive writes, on the base
-   object and through view handles (add/set/remove linear and quadratic, *_from
-   loops, add_variable, remove_variable(s), contract, flip, fix, scale with ignored
-   sets, BQM.update, offset, clear); relabelling, change_vartype, resize, QM.update
-   and QM variable/bound edits are not covered by the proof - for those `wfb` is
-   evaluated on the model state after every call of every generated history. *)
-Theorem C04_wf_step_partial :
-  forall s h o, wf_covered o = true -> (match o with OUpdate _ => is_bqm s = true | _ => True end) ->
-    wf s -> wf (fst (step s (h, o))).
-Proof. exact wf_step_partial. Qed.
-Print Assumptions C04_wf_step_partial.
+(* every call of the model - including relabelling with swaps and cycles (array order and
+   dict order), change_vartype, resize, QuadraticModel.update, QM variable creation and bound
+   edits - on the base object or through a view handle.  The only side condition: the operand
+   of update(other) is itself a well-formed model. *)
+Theorem C04_wf_step :
+  forall s h o, op_wf o -> wf s -> wf (fst (step s (h, o))).
+Proof. exact wf_step. Qed.
+Print Assumptions C04_wf_step.
 
-Theorem C04_wf_reachable_partial :
-  forall s l, wf s -> forallb (fun ho => hist_covered (snd ho)) l = true -> wf (run s l).
-Proof. exact wf_reachable_partial. Qed.
-Print Assumptions C04_wf_reachable_partial.
+Theorem C04_wf_reachable :
+  forall s l, wf s -> Forall (fun ho => op_wf (snd ho)) l -> wf (run s l).
+Proof. exact wf_reachable. Qed.
+Print Assumptions C04_wf_reachable.
+
+Theorem C04_wf_empty : forall k, (forall vt, k = Some vt -> is_sb vt = true) -> wf (mkSt k [] pzero).
+Proof. exact wf_empty. Qed.
+Print Assumptions C04_wf_empty.
+
+Theorem C04_relabel_injective_on_variables :
+  forall m s x y, relabel_ok m s = true -> In x (labels s) -> In y (labels s) -> lookup m x = lookup m y -> x = y.
+Proof. exact lookup_inj. Qed.
+Print Assumptions C04_relabel_injective_on_variables.
 
 Theorem C04_wfb_sound : forall s, wfb s = true -> wf s.
 Proof. exact wfb_sound. Qed.
 Print Assumptions C04_wfb_sound.
+
+(* ---------- the sorted symmetric adjacency of abc.h (index level, Model/Adj.v) ---------- *)
+(* every model reachable from the empty one by any sequence of abc.h calls keeps the invariant
+   (lengths agree, neighbourhoods strictly sorted, symmetric with equal biases, no self-loop on
+   SPIN/BINARY), and its reads obey the same read-after-write laws as the polynomial above *)
+Theorem C04_adj_inv_reachable :
+  forall ops, Dimod.Model.Adj.Inv (fold_left Dimod.Proofs.AdjFacts.cstep ops Dimod.Model.Adj.empty_qm).
+Proof. exact Dimod.Proofs.AdjFacts.inv_reachable. Qed.
+Print Assumptions C04_adj_inv_reachable.
+
+Theorem C04_adj_read_add_quadratic :
+  forall m u v b x y,
+    length (Dimod.Model.Adj.adj m) = Dimod.Model.Adj.nvars m -> (u < Dimod.Model.Adj.nvars m)%nat -> (v < Dimod.Model.Adj.nvars m)%nat ->
+    Dimod.Model.Adj.quadratic (Dimod.Model.Adj.add_quadratic u v b m) x y =
+    Dimod.Model.Adj.quadratic m x y + (if Dimod.Proofs.AdjRW.aq_hit m u v x y then b else 0).
+Proof. exact Dimod.Proofs.AdjRW.quadratic_add_quadratic. Qed.
+Print Assumptions C04_adj_read_add_quadratic.
+
+Theorem C04_adj_read_set_quadratic :
+  forall m m' u v b x y,
+    length (Dimod.Model.Adj.adj m) = Dimod.Model.Adj.nvars m -> (u < Dimod.Model.Adj.nvars m)%nat -> (v < Dimod.Model.Adj.nvars m)%nat ->
+    Dimod.Model.Adj.set_quadratic u v b m = Some m' ->
+    Dimod.Model.Adj.quadratic m' x y = if same_pair x y u v then b else Dimod.Model.Adj.quadratic m x y.
+Proof. exact Dimod.Proofs.AdjRW.quadratic_set_quadratic. Qed.
+Print Assumptions C04_adj_read_set_quadratic.
+
+Theorem C04_adj_read_remove_interaction :
+  forall m u v x y, Dimod.Model.Adj.Inv m ->
+    Dimod.Model.Adj.quadratic (fst (Dimod.Model.Adj.remove_interaction u v m)) x y =
+    if same_pair x y u v then 0 else Dimod.Model.Adj.quadratic m x y.
+Proof. exact Dimod.Proofs.AdjRW.quadratic_remove_interaction. Qed.
+Print Assumptions C04_adj_read_remove_interaction.
+
+Theorem C04_adj_symmetric :
+  forall m u v, Dimod.Model.Adj.Inv m -> Dimod.Model.Adj.quadratic m u v = Dimod.Model.Adj.quadratic m v u.
+Proof. exact Dimod.Proofs.AdjRW.quadratic_sym. Qed.
+Print Assumptions C04_adj_symmetric.
+
+(* the adjacency structure and its polynomial abstraction have the same energy *)
+Theorem C04_adj_energy_is_poly_energy :
+  forall m s, Dimod.Model.Adj.Inv m -> Dimod.Model.Adj.energy_adj m s = energy (Dimod.Model.Adj.abs m) s.
+Proof. exact Dimod.Proofs.AdjEnergy.energy_adj_abs. Qed.
+Print Assumptions C04_adj_energy_is_poly_energy.
 
 (* ---------- non-vacuity ---------- *)
 Definition ex_s0 : state :=
@@ -190,7 +256,7 @@ Definition ex_hist : list (handle * op) :=
    (Via SPIN, OFlip 2%nat); (Direct, ORemoveVariable None)].
 
 Example C04_example_wf : wfb ex_s0 = true /\ wfb (run ex_s0 ex_hist) = true
-                          /\ forallb (fun ho => hist_covered (snd ho)) ex_hist = true.
+                          /\ forallb (fun ho => atomic (snd ho)) ex_hist = true.
 Proof. vm_compute. repeat split. Qed.
 
 Example C04_example_contract_self_raises :
